@@ -1134,6 +1134,9 @@ class Verifier:
             args = []
         if isinstance(cls, MExc):
             return [Outcome(RAISE, st, cls)]
+        if isinstance(cls, SV) and isinstance(cls.t, ObjT):
+            # raising an exception *object* received as data (e.g. the helper's pickled exception)
+            return [Outcome(RAISE, st, MExc('Raised[%s]' % cls.t.family, [cls]))]
         if not isinstance(cls, MCls):
             raise Unsupported('raise of %r' % (cls,))
         return [Outcome(RAISE, st, MExc(cls.name, args))]
